@@ -34,6 +34,8 @@ def run(ck):
     ck.rule("R4", "every consumer of cmp_interval handles every class it can return", floor=3)
     ck.rule("R5", "equality, hull, length and integer membership read the canonical list as such", floor=4)
     _adjacency_rules(ck, m, meths)
+    ck.rule("R7", "closed bounds: a pairing of two members is abandoned only on a strict `hi < lo`", floor=1)
+    closed_bound_rules(ck, "R7")
 
     # ---------------------------------------------------------------- R1
     for name, fn in sorted(meths.items()):
@@ -280,3 +282,42 @@ def _adjacency_rules(ck, m, meths):
                     ok, why = False, "`%s` is false for an interval starting right after the other one ends (start == stop + 1): adjacent " \
                                      "intervals stay split and two lists denote the same integers" % norm(c)
         ck.ob("R6", "cannon_list:fusion-guard:%s" % norm(t)[:40], ok, m.where(n), why)
+
+
+def closed_bound_rules(ck, rid):
+    """Bounds are CLOSED on both sides: two members are disjoint only when `hi < lo'` strictly.  In every method of `interval`, a point of
+    the CFG that leaves the current pairing (continue / break / a deletion) without having consulted cmp_interval, and where the only
+    thing known between the two members is `A[1] <= B[0]` (not the strict `<`), drops the case of one shared end point.  (C26; also a
+    necessary clause of C10, whose shift handlers clamp the shift amount with `&= [0, size]` on a set that may start exactly at `size`.)"""
+    from sa.cfg import CFG
+    from sa.facts import guard_facts
+    import re
+    m = ck.repo.mod(REL)
+    n_tests = 0
+    bound = re.compile(r"^([A-Za-z_][\w\.]*(?:\[[^\]]*\])*)\[([01])\]$")
+    for name, fn in sorted(m.methods("interval").items()):
+        cfg = CFG(fn)
+        facts = guard_facts(cfg)
+        for nd in cfg.nodes:
+            if nd.kind == "test" and isinstance(nd.ast, ast.Compare) and len(nd.ast.ops) == 1:
+                l_, r_ = bound.match(norm(nd.ast.left)), bound.match(norm(nd.ast.comparators[0]))
+                if l_ and r_ and l_.group(1) != r_.group(1):
+                    n_tests += 1
+            if not (nd.kind == "stmt" and isinstance(nd.ast, (ast.Continue, ast.Break, ast.Delete))):
+                continue
+            for ft in facts.get(nd.id, frozenset()):
+                if ft[0] != "cmp":
+                    continue
+                a, op, b = ft[1], ft[2], ft[3]
+                if op == ">=":
+                    a, op, b = b, "<=", a
+                if op != "<=":
+                    continue
+                ma, mb = bound.match(a), bound.match(b)
+                if not (ma and mb) or ma.group(1) == mb.group(1) or (ma.group(2), mb.group(2)) != ("1", "0"):
+                    continue
+                strict = ("cmp", a, "<", b) in facts.get(nd.id, frozenset()) or ("cmp", b, ">", a) in facts.get(nd.id, frozenset())
+                ck.ob(rid, "interval.%s:closed-bounds:%s<=%s" % (name, a, b), strict, m.where(nd.ast),
+                      "the pairing is left (`%s`) knowing only `%s <= %s`: with closed bounds the two members still share the point %s == %s"
+                      % (norm(nd.ast).split("\n")[0], a, b, a, b))
+    ck.ob(rid, "interval:bound-comparisons-seen", n_tests >= 2, REL, "no comparison between bounds of two members found in interval.py (extractor blind)")
